@@ -24,7 +24,8 @@ from elementpath.datatypes import AbstractDateTime, Duration
 from elementpath.xpath_nodes import EtreeElementNode
 
 import xmlschema.names as nm
-from xmlschema.exceptions import XMLSchemaValueError, XMLResourceParseError
+from xmlschema.exceptions import XMLSchemaValueError, XMLResourceParseError, \
+    XMLResourceExceeded
 from xmlschema.aliases import ElementType, BaseXsdType, SchemaElementType, \
     ModelParticleType, ComponentClassType, DecodeType, DecodedValueType
 from xmlschema.translation import gettext as _
@@ -775,7 +776,11 @@ class XsdElement(XsdComponent, ParticleMixin,
                     assertion(obj, validation, context)
 
             context.level += 1
-            content = content_decoder.raw_decode(obj, validation, context)
+            try:
+                content = content_decoder.raw_decode(obj, validation, context)
+            except RecursionError:
+                msg = _("maximum XML depth for the interpreter's recursion limit reached")
+                raise XMLResourceExceeded(msg) from None
             context.level -= 1
 
             if content and len(content) == 1 and content[0][0] == 1:
@@ -1128,7 +1133,11 @@ class XsdElement(XsdComponent, ParticleMixin,
 
         else:
             context.level += 1
-            xsd_type.content.raw_encode(element_data, validation, context)
+            try:
+                xsd_type.content.raw_encode(element_data, validation, context)
+            except RecursionError:
+                msg = _("maximum XML depth for the interpreter's recursion limit reached")
+                raise XMLResourceExceeded(msg) from None
             context.level -= 1
 
         if errors:
